@@ -180,6 +180,8 @@ def driver_batch(requests: list, timeout=3000) -> list:
         if not ok:
             raise HarnessError("cannot build jv-driver:\n" + log[-3000:])
     data = "\n".join(sx(r) for r in requests) + "\n"
+    if os.environ.get("JV_DUMP_REQS"):  # debugging aid: keep the request stream
+        Path(os.environ["JV_DUMP_REQS"]).write_text(data)
     rc, out, err = run([str(DRIVER)], input=data, timeout=timeout)
     if rc != 0:
         raise HarnessError(f"driver exited {rc}: {err[-2000:]}")
